@@ -920,6 +920,49 @@ def monitor_batch(ctx, pid, n, salt=11, name=None, force=None, also=()):
 
 
 # ---------------------------------------------------------------- minimize() slices
+def minimize_shape(f, bounds, N, seed):
+    """None if `minimize(f, bounds, maxfun=N)` builds the configuration that `C03.C03_budget_run` talks
+    about; otherwise a description of the difference"""
+    import importlib
+
+    H = importlib.import_module("pyhms.hms")  # `pyhms.hms` the attribute is the function hms()
+    from pyhms.core import problem as P
+    from pyhms.stop_conditions import SingularProblemEvalLimitReached
+
+    captured = []
+    real = H.DemeTree
+
+    class Stop(Exception):
+        pass
+
+    def fake(config):
+        captured.append(config)
+        raise Stop()
+
+    H.DemeTree = fake
+    try:
+        try:
+            H.minimize(f, bounds, maxfun=N, seed=seed)
+        except Stop:
+            pass
+    finally:
+        H.DemeTree = real
+    if not captured:
+        return "minimize() did not construct a DemeTree"
+    cfg = captured[0]
+    probs = [lc.problem for lc in cfg.levels]
+    if any(p is not probs[0] for p in probs):
+        return "levels do not share one problem object"
+    p0 = probs[0]
+    if type(p0) is not P.EvalCutoffProblem or p0._eval_cutoff != N:
+        return f"level problem is {type(p0).__name__} with cutoff {getattr(p0, '_eval_cutoff', None)}, expected EvalCutoffProblem with cutoff {N}"
+    if type(p0._inner) is not P.FunctionProblem:
+        return f"the cutoff wraps {type(p0._inner).__name__}, expected the bare FunctionProblem"
+    if not isinstance(cfg.gsc, SingularProblemEvalLimitReached) or cfg.gsc.limit != N:
+        return f"stop condition is {cfg.gsc}, expected SingularProblemEvalLimitReached({N})"
+    return None
+
+
 def minimize_slice(ctx, pid, n, salt=41):
     """budget sweeps of `pyhms.minimize` with a recording objective: nfev == calls <= maxfun (C03),
     fun == min of everything returned and budget-prefix replay (C04), nit == maxiter (C05), x in box (C01)"""
@@ -953,6 +996,14 @@ def minimize_slice(ctx, pid, n, salt=41):
         for N in (n1, n2):
             f, calls = make()
             try:
+                if pid == "C03":
+                    # the run-level budget theorem (C03.C03_budget_run) is about trees whose levels all
+                    # evaluate through ONE wrapper stack that is the single layer `cutoff N`:
+                    # check that this is the tree `minimize(maxfun=N)` builds
+                    shape = minimize_shape(f, bounds, N, seed)
+                    if shape is not None:
+                        sl.disagreements.append({"op": f"minimize(maxfun={N})", "impl": shape, "model": "levels share one EvalCutoffProblem(FunctionProblem(fun), N); stop condition SingularProblemEvalLimitReached(N)"})
+                    calls.clear()
                 r = minimize(f, bounds, maxfun=N, seed=seed)
             except Exception as e:
                 sl.violations.append({"signature": f"{pid}/minimize-crashed", "detail": f"minimize(maxfun={N}, seed={seed}) raised {type(e).__name__}: {e}", "replay": {"bounds": bounds, "maxfun": N, "seed": seed}})
